@@ -118,6 +118,91 @@ def exc_path(start_edges, goal_pred, efilter=None, avoid=(), stop=()):
     return None
 
 
+def _env_truth(e, env):
+    """truth of test expression e under env {name: constant}; None if undecided"""
+    if isinstance(e, ast.UnaryOp) and isinstance(e.op, ast.Not):
+        t = _env_truth(e.operand, env)
+        return None if t is None else not t
+    if isinstance(e, ast.Name) and e.id in env:
+        return bool(env[e.id])
+    if isinstance(e, ast.Compare) and len(e.ops) == 1 and isinstance(e.left, ast.Name) and e.left.id in env and isinstance(e.comparators[0], ast.Constant):
+        v, c, op = env[e.left.id], e.comparators[0].value, e.ops[0]
+        if isinstance(op, (ast.Is, ast.IsNot)):
+            r = (v is c) if (c is None or isinstance(c, bool)) else (v == c)
+            return r if isinstance(op, ast.Is) else not r
+        if isinstance(op, (ast.Eq, ast.NotEq)):
+            return (v == c) if isinstance(op, ast.Eq) else (v != c)
+    if isinstance(e, ast.BoolOp):
+        ts = [_env_truth(v, env) for v in e.values]
+        if isinstance(e.op, ast.And):
+            if any(t is False for t in ts):
+                return False
+            return True if all(t is True for t in ts) else None
+        if any(t is True for t in ts):
+            return True
+        return False if all(t is False for t in ts) else None
+    return None
+
+
+def env_search(starts, goal_pred=None, efilter=None, avoid=(), stop=(), env0=None):
+    """path-sensitive search that remembers the constants assigned to plain local names on the way and prunes the branches those constants
+    decide (a `reason = 'x'` ... `if reason is not None:` correlation).  Returns (reached nodes, witness path to the first goal node or None)."""
+    avoid = set(id(x) for x in avoid)
+    stop = set(id(x) for x in stop)
+    env0 = tuple(sorted((env0 or {}).items(), key=repr))
+    prev = {}
+    work = deque()
+    reached = {}
+    for s in starts:
+        if id(s) in avoid:
+            continue
+        k = (id(s), env0)
+        if k in prev:
+            continue
+        prev[k] = (s, None)
+        work.append((s, env0))
+    while work:
+        n, envt = work.popleft()
+        reached[id(n)] = n
+        if goal_pred is not None and goal_pred(n):
+            out = []
+            k = (id(n), envt)
+            while k is not None:
+                node, pk = prev[k]
+                out.append(node)
+                k = pk
+            return list(reached.values()), out[::-1]
+        if id(n) in stop:
+            continue
+        env = dict(envt)
+        if n.kind == 'stmt' and isinstance(n.ast, ast.Assign) and len(n.ast.targets) == 1 and isinstance(n.ast.targets[0], ast.Name):
+            nm = n.ast.targets[0].id
+            if isinstance(n.ast.value, ast.Constant):
+                env[nm] = n.ast.value.value
+            else:
+                env.pop(nm, None)
+        elif n.kind == 'stmt' and isinstance(n.ast, (ast.AugAssign, ast.For, ast.With, ast.Delete)) or n.kind in ('branch',) and n.attrs.get('polarity') == 'iter':
+            for x in ast.walk(n.ast if isinstance(n.ast, ast.AST) else ast.Pass()):
+                if isinstance(x, ast.Name) and isinstance(x.ctx, (ast.Store, ast.Del)):
+                    env.pop(x.id, None)
+        nenvt = tuple(sorted(env.items(), key=repr))
+        for (t, kind, tok) in n.succ:
+            if efilter is not None and not efilter(n, t, kind, tok):
+                continue
+            if id(t) in avoid:
+                continue
+            if t.kind == 'branch' and t.attrs['test'].kind == 'test' and t.attrs['polarity'] in (True, False):
+                tr = _env_truth(t.attrs['test'].ast, env)
+                if tr is not None and tr != t.attrs['polarity']:
+                    continue
+            k = (id(t), nenvt)
+            if k in prev:
+                continue
+            prev[k] = (t, (id(n), envt))
+            work.append((t, nenvt))
+    return list(reached.values()), None
+
+
 def in_loop_body(node, loop_stmt):
     """node lies inside the body of the given for/while statement (code after
     the loop that is reachable through `break` does not)"""
@@ -300,6 +385,92 @@ def guard_facts(dom, n):
             out += facts_of(expr, b.attrs['polarity'], b)
         else:
             out.append(Fact(ast.Constant(value='except %s' % (b.attrs['classes'],)), 'handler', b))
+    rdf = getattr(dom, 'rd_factory', None)
+    if rdf is not None:
+        out = _expand_named_facts(dom, out, rdf)
+    return out
+
+
+def _const_of(e):
+    if isinstance(e, ast.Constant):
+        return (True, e.value)
+    return (False, None)
+
+
+def _expand_named_facts(dom, facts, rdf, depth=0):
+    """see through local names used as conditions:
+    (a) `if flag:` where `flag` has one reaching definition, a boolean expression -> the facts of that expression;
+    (b) `if reason is None:` / `== 'k'` / truthiness where every reaching definition of `reason` is a constant: if exactly one definition
+        is consistent with the fact, the path went through it, so the facts guarding that definition hold as well."""
+    if depth > 2:
+        return facts
+    rd = None
+    extra = []
+    for fa in facts:
+        if fa.polarity not in (True, False) or fa.origin is None or fa.origin.kind != 'branch':
+            continue
+        e = fa.expr
+        name = None
+        consistent = None
+        if isinstance(e, ast.Name):
+            name = e.id
+            consistent = lambda v, pol=fa.polarity: bool(v) == pol
+        elif isinstance(e, ast.Compare) and len(e.ops) == 1 and isinstance(e.left, ast.Name) and isinstance(e.comparators[0], ast.Constant) and isinstance(e.ops[0], (ast.Is, ast.Eq)):
+            name = e.left.id
+            c = e.comparators[0].value
+            consistent = lambda v, pol=fa.polarity, c=c: ((v is c) if c is None or isinstance(c, bool) else (v == c)) == pol
+        if name is None:
+            continue
+        if rd is None:
+            try:
+                rd = rdf()
+            except Exception:
+                return facts
+        t = fa.origin.attrs['test']
+        defs = rd.at(t, name)
+        if not defs or any(d.kind != 'assign' for d in defs):
+            continue
+        if isinstance(e, ast.Name) and len(defs) == 1 and isinstance(defs[0].value, (ast.BoolOp, ast.Compare, ast.UnaryOp)):
+            # (a) named condition
+            if not _names_redefined_between(rd, defs[0], t):
+                extra += _expand_named_facts(dom, facts_of(defs[0].value, fa.polarity, fa.origin), rdf, depth + 1)
+            continue
+        consts = [_const_of(d.value) if isinstance(d.value, ast.AST) else (False, None) for d in defs]
+        if not all(ok for ok, _ in consts):
+            continue
+        cands = [d for d, (_, v) in zip(defs, consts) if consistent(v)]
+        if len(cands) == 1 and dom.has(cands[0].node):
+            for g_ in guard_facts_plain(dom, cands[0].node):
+                extra.append(g_)
+    if not extra:
+        return facts
+    seen = set(f.key() for f in facts)
+    out = list(facts)
+    for f in extra:
+        if f.key() not in seen:
+            seen.add(f.key())
+            out.append(f)
+    return out
+
+
+def _names_redefined_between(rd, d, t):
+    """some name read by the defining expression of d has a different set of reaching definitions at test node t than at d"""
+    for x in ast.walk(d.value):
+        if isinstance(x, ast.Name) and isinstance(x.ctx, ast.Load):
+            a = set(id(z) for z in rd.at(d.node, x.id))
+            b = set(id(z) for z in rd.at(t, x.id))
+            if a != b:
+                return True
+    return False
+
+
+def guard_facts_plain(dom, n):
+    out = []
+    for b in dom.guards(n):
+        if b.kind == 'branch':
+            t = b.attrs['test']
+            expr = t.ast if t.kind == 'test' else t.ast.iter
+            out += facts_of(expr, b.attrs['polarity'], b)
     return out
 
 
